@@ -95,8 +95,16 @@ fn res_bits_eq(a: &Res, b: &Res) -> bool {
 fn clone_everywhere(rep: &mut Report, p: &Params, bars: bool, seed: u64) {
     let n = p.max_period();
     let len = 3 * n + 3 + (seed % 3) as usize;
-    let s = stream(bars, len, seed);
-    let d = stream(bars, len, seed ^ 0xD15707B);
+    let mut s = stream(bars, len, seed);
+    let mut d = stream(bars, len, seed ^ 0xD15707B);
+    // both streams contain reset() calls: a clone taken right before one shares whatever the implementation
+    // shares at the moment the other side resets
+    if len > 6 {
+        s[len / 2] = Op::Reset;
+        s[len - 2] = Op::Reset;
+        d[len / 2 + 1] = Op::Reset;
+        d[1] = Op::Reset;
+    }
     // replay outputs
     let mut r = Inst::new(p);
     let or: Vec<Res> = s.iter().map(|op| r.apply(op)).collect();
